@@ -311,6 +311,34 @@ pub fn check_definitely_present(logs: &[OpRec], counts: &mut Counts, findings: &
     }
 }
 
+/// Two puts of one key that were both acknowledged Accepted although no delete of the key can have run between their
+/// executions (C07a under concurrency; same gating: no memory pressure, no time-to-live).
+pub fn check_double_accepted_puts(logs: &[OpRec], counts: &mut Counts, findings: &mut Vec<Finding>, witness: &dyn Fn(&[&OpRec]) -> J) {
+    let mut by_key: BTreeMap<u64, Vec<&OpRec>> = BTreeMap::new();
+    for rec in logs { if let Outcome::Write { op, .. } = &rec.outcome { by_key.entry(op.key()).or_default().push(rec); } }
+    for (key, writes) in by_key {
+        let mut puts: Vec<(&OpRec, u64)> = writes.iter().filter_map(|w| match &w.outcome {
+            Outcome::Write { op, status: Some(Waited::Ready(CommandStatus::Accepted)), acked_at: Some(a), .. } if op.is_put() => Some((*w, *a)), _ => None }).collect();
+        puts.sort_by_key(|(w, _)| w.call);
+        for pair in puts.windows(2) {
+            let ((first, first_acked), (second, second_acked)) = (pair[0], pair[1]);
+            // the two may have been executed in either order (a call that began first can be queued last): a delete is "between"
+            // them if it can have run anywhere from the earlier call to the later acknowledgement
+            let (from, until) = (first.call.min(second.call), first_acked.max(second_acked));
+            let delete_between = writes.iter().any(|d| match &d.outcome {
+                Outcome::Write { op: WriteOp::Delete { .. }, acked_at, .. } => d.call < until && acked_at.map(|a| a > from).unwrap_or(true),
+                _ => false,
+            });
+            counts.inc("pairs_of_accepted_puts_judged");
+            if !delete_between {
+                findings.push(Finding { props: vec!["C07", "C05"], signature: "C07/two-puts-of-one-key-both-accepted-without-a-delete-between/concurrent".into(),
+                    detail: format!("two puts of key {} (stamps {}.. and {}..) were both acknowledged Accepted and no delete of the key was in flight between them: the second overwrote the first", key, first.call, second.call),
+                    witness: { let mut near: Vec<&OpRec> = writes.iter().filter(|w| w.call + 400 > from && w.call < until + 400).copied().collect(); near.sort_by_key(|w| w.call); witness(&near) }, inconclusive: false });
+            }
+        }
+    }
+}
+
 fn support_shape(rec: &OpRec) -> String { match &rec.outcome { Outcome::Write { op, .. } => op.shape(), _ => "?".into() } }
 
 /// Classifies abnormal acknowledgement outcomes found in client logs (C12 / C17 / C18).
@@ -510,7 +538,10 @@ fn mixed_cfg(focus: &str, seed: u64, index: u64, clean: bool) -> MixedCfg {
     let forced = if rng.chance(1, 3) { Some((*rng.pick(&STRETCH_SITES), rng.range(1500, 5000))) } else { None };
     let churn = index % 4 == 0;
     let (threads, keys) = if churn { (threads.max(8), rng.range(1, 2)) } else { (threads, keys) };
-    MixedCfg { forced, valueless: index % 2 == 0, churn, threads, keys, ops: rng.range(40, 250) as usize, pressure, ttl: rng.chance(1, 2), clean_weights, with_shutdown: false, sut, perturb }
+    // churn cases have no memory pressure and no time-to-live: nothing but a delete removes a key, so every put / upsert outcome can be judged
+    let mut sut = sut;
+    let (pressure, ttl_on) = if churn { sut.max_weight = 1_000_000; (false, false) } else { (pressure, rng.chance(1, 2)) };
+    return MixedCfg { threads, keys, ops: rng.range(40, 250) as usize, pressure, ttl: ttl_on, clean_weights, with_shutdown: false, sut, perturb, forced, valueless: index % 2 == 0, churn };
 }
 
 fn key_weight(key: u64) -> i64 { 25 + (key * 7 % 20) as i64 }
@@ -588,13 +619,13 @@ fn run_mixed(focus: &'static str, seed: u64, index: u64, clean: bool) -> CaseOut
         Some(thread::spawn(move || { rt::register_helper_thread(); let mut n = 0u64; while !stop.load(Ordering::Relaxed) { clock.advance(NS / 4); n += 1; thread::sleep(Duration::from_micros(300)); } n }))
     } else { None };
     let marks = sut.marks;
-    let mut handles = Vec::new();
+    let mut crew: rt::Crew<Client> = rt::Crew::new();
     for t in 0..cfg.threads {
         let cache = sut.cache.clone();
         let cfg = cfg.clone();
         let clock = sut.clock.clone();
         let mut rng = rt::rng_for(seed, index, 100 + t as u64);
-        handles.push(thread::spawn(move || {
+        crew.spawn(move || {
             let mut client = Client::with_clock(t as u64 + 1, clock);
             for n in 0..cfg.ops {
                 if rt::aborted() { break; }
@@ -618,14 +649,18 @@ fn run_mixed(focus: &'static str, seed: u64, index: u64, clean: bool) -> CaseOut
             }
             client.settle_all(&marks);
             client
-        }));
+        });
     }
     let mut logs: Vec<OpRec> = Vec::new();
-    for handle in handles {
-        match handle.join() {
-            Ok(client) => logs.extend(client.log),
-            Err(_) => findings.push(Finding { props: vec!["C17"], signature: "C17/client-thread-panicked-outside-catch".into(), detail: "a client thread died".into(), witness: case.clone(), inconclusive: false }),
+    let expected_clients = crew.len();
+    match crew.join("the clients of a mixed run to finish") {
+        Ok(clients) => {
+            if clients.len() != expected_clients { findings.push(Finding { props: vec!["C17"], signature: "C17/client-thread-panicked-outside-catch".into(), detail: "a client thread died".into(), witness: case.clone(), inconclusive: false }); }
+            for client in clients { logs.extend(client.log); }
         }
+        Err(Waited::Deadlock(description)) => findings.push(Finding { props: vec!["C18", "C17"], signature: "C18/deadlock/clients-stuck-inside-api-calls".into(),
+            detail: format!("client threads never returned from their calls and nothing progresses: {}", description), witness: case.clone(), inconclusive: false }),
+        Err(other) => findings.push(Finding { props: vec!["C18"], signature: "inconclusive/clients".into(), detail: waited_name(&other), witness: J::Null, inconclusive: true }),
     }
     stop.store(true, Ordering::SeqCst);
     for o in observers { let _ = o.join(); }
@@ -651,7 +686,7 @@ fn run_mixed(focus: &'static str, seed: u64, index: u64, clean: bool) -> CaseOut
     check_ack_outcomes(&logs, false, &mut counts, &mut findings, &witness, panic_mark);
     check_reads(&logs, &mut counts, &mut findings, &witness);
     check_expiry(&logs, &mut counts, &mut findings, &witness);
-    if !cfg.pressure && !cfg.ttl { check_definitely_present(&logs, &mut counts, &mut findings, &witness); }
+    if !cfg.pressure && !cfg.ttl { check_definitely_present(&logs, &mut counts, &mut findings, &witness); check_double_accepted_puts(&logs, &mut counts, &mut findings, &witness); }
     // quiescence: every command acknowledged, two sweeps since the clock stopped
     let mut quiescent = true;
     if let Err(waited) = sut.quiesce().and_then(|_| sut.settle_fresh()) {
@@ -684,7 +719,7 @@ fn run_mixed(focus: &'static str, seed: u64, index: u64, clean: bool) -> CaseOut
     counts.add("schedule_points_visited", trace.len() as u64);
     let nontrivial = counts.get("reads_overlapping_a_write_of_the_same_key") > 0 && counts.get("reads_returned_value") > 0;
     let sample = case.clone().with("first_operations", J::Arr(logs.iter().take(12).map(|r| r.to_json()).collect()));
-    if let Err(waited) = sut.finish() { if findings.is_empty() { push_stuck(&mut findings, "shutdown after a mixed run", waited, &case); } }
+    if let Err(waited) = sut.finish_or_leak() { if findings.is_empty() { push_stuck(&mut findings, "shutdown after a mixed run", waited, &case); } }
     counts.inc("cases");
     CaseOut { findings, counts, signature, nontrivial, sample }
 }
@@ -832,7 +867,7 @@ fn run_same_key(focus: &'static str, seed: u64, index: u64) -> CaseOut {
     }
     let signature = fnv_step(fnv_step(0x5A3E, variant), (with_ttl as u64) << 8 | sut.cfg.cmd_buf as u64);
     let sample = case.clone().with("operations", J::Arr(logs.iter().take(12).map(|r| r.to_json()).collect()));
-    if let Err(waited) = sut.finish() { if findings.is_empty() { push_stuck(&mut findings, "shutdown after a same-key race", waited, &case); } }
+    if let Err(waited) = sut.finish_or_leak() { if findings.is_empty() { push_stuck(&mut findings, "shutdown after a same-key race", waited, &case); } }
     counts.inc("cases");
     CaseOut { findings, counts, signature: fnv_step(signature, key), nontrivial: window_entered, sample }
 }
@@ -926,7 +961,7 @@ fn run_update_sweep(focus: &'static str, seed: u64, index: u64) -> CaseOut {
     counts.add("sweeps_overlapping_worker_commands", recorder().swept_ids.swap(0, Ordering::Relaxed));
     let signature = fnv_step(fnv_step(fnv_step(0x0D5, index % 40), shards as u64), n_keys << 4 | ttl_secs);
     let sample = case.clone().with("operations", J::Arr(logs.iter().take(10).map(|r| r.to_json()).collect()));
-    if let Err(waited) = sut.finish() { if findings.is_empty() { push_stuck(&mut findings, "shutdown after an update/sweep race", waited, &case); } }
+    if let Err(waited) = sut.finish_or_leak() { if findings.is_empty() { push_stuck(&mut findings, "shutdown after an update/sweep race", waited, &case); } }
     counts.inc("cases");
     CaseOut { findings, counts, signature, nontrivial: true, sample }
 }
@@ -1009,7 +1044,7 @@ fn run_sweep_reput(focus: &'static str, seed: u64, index: u64) -> CaseOut {
     weight_bound_findings(&mut findings, &case, "sweep-reput");
     let signature = fnv_step(fnv_step(0x5EE9, index % 8), key << 4 | shards as u64);
     let sample = case.clone().with("operations", J::Arr(logs.iter().take(10).map(|r| r.to_json()).collect()));
-    if let Err(waited) = sut.finish() { if findings.is_empty() { push_stuck(&mut findings, "shutdown after a sweep/re-put race", waited, &case); } }
+    if let Err(waited) = sut.finish_or_leak() { if findings.is_empty() { push_stuck(&mut findings, "shutdown after a sweep/re-put race", waited, &case); } }
     counts.inc("cases");
     CaseOut { findings, counts, signature, nontrivial: window, sample }
 }
@@ -1149,7 +1184,7 @@ fn run_sweep_other_key(focus: &'static str, seed: u64, index: u64) -> CaseOut {
     }
     let signature = fnv_step(fnv_step(0x50C, index % 36), variant);
     let sample = case.clone().with("operations", J::Arr(logs.iter().take(10).map(|r| r.to_json()).collect()));
-    if let Err(waited) = sut.finish() { if findings.is_empty() { push_stuck(&mut findings, "shutdown after a sweep race", waited, &case); } }
+    if let Err(waited) = sut.finish_or_leak() { if findings.is_empty() { push_stuck(&mut findings, "shutdown after a sweep race", waited, &case); } }
     counts.inc("cases");
     CaseOut { findings, counts, signature, nontrivial, sample }
 }
@@ -1321,7 +1356,7 @@ fn run_held_client(focus: &'static str, seed: u64, index: u64) -> CaseOut {
     weight_bound_findings(&mut findings, &case, "held-client");
     let signature = fnv_step(fnv_step(fnv_step(0x4E1D, index % 72), op_a_kind << 8 | b_kind), key << 4 | window_entered as u64);
     let sample = case.clone().with("operations", J::Arr(all_logs.iter().take(10).map(|r| r.to_json()).collect()));
-    if let Err(waited) = sut.finish() { if findings.is_empty() { push_stuck(&mut findings, "shutdown after a held-client race", waited, &case); } }
+    if let Err(waited) = sut.finish_or_leak() { if findings.is_empty() { push_stuck(&mut findings, "shutdown after a held-client race", waited, &case); } }
     counts.inc("cases");
     CaseOut { findings, counts, signature, nontrivial: window_entered, sample }
 }
